@@ -28,8 +28,11 @@ REPO = "/repo"
 
 
 def sh(cmd, cwd=None, env=None, timeout=3600):
-    p = subprocess.run(cmd, cwd=cwd, env=env, shell=isinstance(cmd, str), stdout=subprocess.PIPE, stderr=subprocess.STDOUT,
-                       text=True, timeout=timeout)
+    try:
+        p = subprocess.run(cmd, cwd=cwd, env=env, shell=isinstance(cmd, str), stdout=subprocess.PIPE, stderr=subprocess.STDOUT,
+                           text=True, timeout=timeout)
+    except subprocess.TimeoutExpired:
+        return 124, "TIMEOUT after %ds" % timeout
     out = "\n".join(l for l in p.stdout.splitlines() if "conda" not in l)
     return p.returncode, out
 
@@ -52,14 +55,14 @@ def one(sid, args):
         demo = os.path.join(d, "demo.py")
         envd = dict(os.environ, PYTHONPATH=tree, PYTHONHASHSEED="0")
         if os.path.exists(demo):
-            rc0, out0 = sh(["/venv/bin/python", demo], cwd=tree, env=envd, timeout=600)
+            rc0, out0 = sh(["/venv/bin/python", demo], cwd=tree, env=envd, timeout=1500)
             res["demo_unchanged_rc"] = rc0
         rc, out = sh(["git", "-C", tree, "apply", os.path.join(d, "patch.diff")])
         if rc:
             res["error"] = "patch does not apply: " + out
             return res
         if os.path.exists(demo):
-            rc1, out1 = sh(["/venv/bin/python", demo], cwd=tree, env=envd, timeout=600)
+            rc1, out1 = sh(["/venv/bin/python", demo], cwd=tree, env=envd, timeout=1500)
             res["demo_changed_rc"] = rc1
             res["demo_changed_tail"] = out1[-400:]
         if args.tests:
